@@ -238,6 +238,7 @@ def case_eng(rng):
     k = rng.choice([2, 2, 3])
     ops = []
     deleted = {"s": set(), "t": set()}   # a part handler for a deleted day would create a NEW segment object
+    nseg = {"s": k, "t": k}              # grows with rotation ticks (K<e>)
 
     def seg():
         return rng.randrange(k)
@@ -264,15 +265,30 @@ def case_eng(rng):
             ops.append(query())
         elif r < 0.80:
             ops.append(part())
-        elif r < 0.88:
+        elif r < 0.86:
             ops.append("I")
-        elif r < 0.93:
-            e, i = rng.choice("st"), seg()
+        elif r < 0.90:
+            e = rng.choice("st")
+            if nseg[e] < 5 and (nseg[e] - 1) not in deleted[e]:
+                ops.append("K%s" % e)       # rotation pre-creates the next segment
+                nseg[e] += 1
+        elif r < 0.94:
+            e = rng.choice("st")
+            i = rng.randrange(nseg[e])
             deleted[e].add(i)
             ops.append("X%s%d" % (e, i))
         else:
             ops.append("U%s%d" % (rng.choice("st"), seg()))
     # a holder, an engine call that touches its segment, then reclaim / delete, then the holder looks
+    # rotation tick in the last hour of the newest segment, then the pre-created segment becomes idle / expired
+    if rng.random() < 0.5:
+        e = rng.choice("st")
+        if nseg[e] < 5 and (nseg[e] - 1) not in deleted[e]:
+            j = nseg[e]
+            nseg[e] += 1
+            ops += ["K%s" % e] + rng.choice([["I"], ["X%s%d" % (e, j)], ["H%s%d" % (e, j), "I", "U%s%d" % (e, j), "R%s%d" % (e, j), "I"]])
+            if ops[-1][0] == "X":
+                deleted[e].add(j)
     e = rng.choice("st")
     live = [i for i in range(k) if i not in deleted[e]]
     if not live:
@@ -314,9 +330,14 @@ def oracle_eng(line, g):
             held[o[1]][int(o[2])] -= 1
         elif o[0] == "U" and res == "0":
             return where + ": the driver holds the segment and sees a closed index or no directory"
+        if o[0] == "K" and res not in ("new", "none"):
+            return where + ": malformed rotation tick result"
         for e in "st":
-            for i in range(k):
-                s, p, H = cur[e][i], prev[e][i], held[e][i]
+            while len(held[e]) < len(cur[e]):
+                held[e].append(0)       # a segment pre-created by the rotation tick: nobody holds it
+            for i in range(len(cur[e])):
+                s, H = cur[e][i], held[e][i]
+                p = prev[e][i] if i < len(prev[e]) else s
                 tag = "%s: %s segment %d %s, driver holds %d" % (where, {"s": "stream", "t": "trace"}[e], i, s, H)
                 if s["rc"] < H:
                     return tag + ": the engine call released a reference it did not own (refCount < holders)"
